@@ -266,6 +266,16 @@ def iter_items_cond(ex, ctx, st, it):
         if nm in ('Copied', 'Cloned'):
             inner, st = iter_items_cond(ex, ctx, st, it[2][0])
             return [(c, ex.load(st, x) if x[0] == 'ref' else x) for c, x in inner], st
+        if nm == 'CondSeq':
+            seq, conds, pos = it[2]
+            pc_ = pos_consts(pos)
+            if not pc_:
+                raise Uncertified("iterator with symbolic position")
+            out = []
+            for i in range(min(pc_), len(seq[2])):
+                reached = map_ite_memo(pos, lambda p, i=i: TRUE if p[1] <= i else FALSE)
+                out.append((mk_and(reached, conds[2][i]), seq[2][i]))
+            return out, st
         if nm == 'Filter':
             # presence conditions are no longer prefix-closed; only consumers that treat items independently
             # (fold with a per-item ite, any, all, count) may use them
@@ -435,8 +445,18 @@ def apply(ex, ctx, st, f, args, dest_ty, term):
     if path.startswith('core::bool::<impl bool>::then_some'):
         return mk_ite(args[0], option_some(args[1]), OPTION_NONE), st
     if path.startswith('core::bool::<impl bool>::then'):
-        r, st = call_closure(ex, ctx, st, args[1], [])
+        ex.extra_guard.append(args[0])
+        try:
+            r, st = call_closure(ex, ctx, st, args[1], [])
+        finally:
+            ex.extra_guard.pop()
         return mk_ite(args[0], option_some(r), OPTION_NONE), st
+    if path in ('core::num::NonZero::<T>::new', 'core::num::nonzero::NonZero::<T>::new'):
+        # a NonZero<T> is represented by its value
+        ty = ty_of(args[0])
+        return mk_ite(mk_bin('Ne', args[0], C(0, ty), ty, 'bool'), option_some(args[0]), OPTION_NONE), st
+    if path in ('core::num::NonZero::<T>::get', 'core::num::nonzero::NonZero::<T>::get'):
+        return args[0], st
     # ---- chars
     if path.startswith('core::char::methods::<impl char>::'):
         c0 = args[0]
@@ -690,6 +710,33 @@ def apply(ex, ctx, st, f, args, dest_ty, term):
             return gmap(ex, o, uoe), st
         if name == 'or':
             return map_ite(o, lambda l: l if l[1][2] == 1 else args[1]), st
+        if name == 'and':
+            return map_ite(o, lambda l: args[1] if l[1][2] == 1 else OPTION_NONE), st
+        if name == 'or_else':
+            def oe(l):
+                nonlocal st
+                if l[1][2] == 1:
+                    return l
+                r, st = call_closure(ex, ctx, st, args[1], [])
+                return r
+            return gmap(ex, o, oe), st
+        if name == 'is_some_and':
+            def isa(l):
+                nonlocal st
+                if l[1][2] == 0:
+                    return FALSE
+                r, st = call_closure(ex, ctx, st, args[1], [l[2][0]])
+                return r
+            return gmap(ex, o, isa), st
+        if name == 'ok_or_else':
+            R = 'core::result::Result'
+            def ooe(l):
+                nonlocal st
+                if l[1][2] == 1:
+                    return agg(('adt', R, pdb.variant_index(R, 'Ok')), (l[2][0],))
+                r, st = call_closure(ex, ctx, st, args[1], [])
+                return agg(('adt', R, pdb.variant_index(R, 'Err')), (r,))
+            return gmap(ex, o, ooe), st
         if name == 'filter':
             def fl(l):
                 nonlocal st
@@ -1117,20 +1164,47 @@ def apply(ex, ctx, st, f, args, dest_ty, term):
                     return option_some(lo), st
                 return OPTION_NONE, st
             raise Uncertified("range iterator with symbolic bounds")
+        if k[0] == 'model' and k[1] == 'CondSeq':
+            seq, conds, pos = it[2]
+            if not pos_consts(pos):
+                raise Uncertified("iterator with symbolic position")
+            n_ = len(seq[2])
+
+            def from_pos(p):
+                res, np_ = OPTION_NONE, C(n_, 'usize')
+                for i in range(n_ - 1, min(p[1], n_) - 1, -1):
+                    res = mk_ite(conds[2][i], option_some(seq[2][i]), res)
+                    np_ = mk_ite(conds[2][i], C(i + 1, 'usize'), np_)
+                return res, np_
+            res = map_ite_memo(pos, lambda p: from_pos(p)[0])
+            ex.store(st, itref, mk('agg', k, (seq, conds, map_ite_memo(pos, lambda p: from_pos(p)[1]))))
+            return res, st
         if k[0] == 'model':
-            items, st = iter_items(ex, ctx, st, it)
-            if items:
-                ex.store(st, itref, m_iter('ArrayIter', agg(('array',), items[1:]), C(0, 'usize')))
-                return option_some(items[0]), st
-            return OPTION_NONE, st
+            citems, st = iter_items_cond(ex, ctx, st, it)
+            if all(c is TRUE for c, _ in citems):
+                items = [x for _, x in citems]
+                if items:
+                    ex.store(st, itref, m_iter('ArrayIter', agg(('array',), items[1:]), C(0, 'usize')))
+                    return option_some(items[0]), st
+                return OPTION_NONE, st
+            # items that may be absent (filter): a sequence with presence conditions, advanced to the first present one
+            cs = m_iter('CondSeq', agg(('array',), [x for _, x in citems]), agg(('tuple',), [c for c, _ in citems]), C(0, 'usize'))
+            ex.store(st, itref, cs)
+            return apply(ex, ctx, st, f, args, dest_ty, term)
         raise Uncertified("next() on %s" % (k,))
     if dpath in ('core::iter::Iterator::any', 'core::iter::Iterator::all'):
         is_any = dpath.endswith('any')
         sc = short_circuit(ex, ctx, st, args[0], args[1], is_any, lambda i, x, k_: (TRUE if is_any else FALSE), lambda: (FALSE if is_any else TRUE))
         if sc is not None:
             return sc
-        items, st = iter_items(ex, ctx, st, args[0])
-        return fold_bool(ex, ctx, st, items, args[1], dpath.endswith('any'))
+        citems, st = iter_items_cond(ex, ctx, st, args[0])
+        if all(c is TRUE for c, _ in citems):
+            return fold_bool(ex, ctx, st, [x for _, x in citems], args[1], dpath.endswith('any'))
+        acc = FALSE if is_any else TRUE
+        for c, x in citems:
+            r, st = call_closure(ex, ctx, st, args[1], [x])
+            acc = mk_or(acc, mk_and(c, r)) if is_any else mk_and(acc, mk_or(mk_not(c), r))
+        return acc, st
     if dpath == 'core::iter::Iterator::fold':
         citems, st = iter_items_cond(ex, ctx, st, args[0])
         acc = args[1]
@@ -1214,21 +1288,25 @@ def apply(ex, ctx, st, f, args, dest_ty, term):
             _, st = call_closure(ex, ctx, st, args[1], [x])
         return UNIT, st
     if dpath in ('core::iter::Iterator::sum', 'core::iter::Iterator::product'):
-        items, st = iter_items(ex, ctx, st, args[0])
+        citems, st = iter_items_cond(ex, ctx, st, args[0])
         ty = dest_ty['s']
         acc = C(0 if name == 'sum' else 1, ty)
-        for x in items:
+        for c, x in citems:
             if x[0] == 'ref':
                 x = ex.load(st, x)
             op = 'Add' if name == 'sum' else 'Mul'
             flag = mk('bin', op + 'Ovf', acc, x, 'bool') if not (acc[0] == 'c' and x[0] == 'c') else None
             if flag is not None:
-                ex.obligations.append(Obligation(key, line, 'Overflow:' + op, mk_not(flag), ex.gs(st), [acc, x], tuple(ex.fn_stack)))
-            acc = mk_bin(op, acc, x, ty, ty)
+                ex.obligations.append(Obligation(key, line, 'Overflow:' + op, mk_not(flag), ex.gs(st) + (() if c is TRUE else (c,)), [acc, x], tuple(ex.fn_stack)))
+            nxt = mk_bin(op, acc, x, ty, ty)
+            acc = nxt if c is TRUE else mk_ite(c, nxt, acc)
         return acc, st
     if dpath == 'core::iter::Iterator::count':
-        items, st = iter_items(ex, ctx, st, args[0])
-        return C(len(items), 'usize'), st
+        citems, st = iter_items_cond(ex, ctx, st, args[0])
+        acc = C(0, 'usize')
+        for c, _x in citems:
+            acc = mk_bin('Add', acc, mk_ite(c, C(1, 'usize'), C(0, 'usize')), 'usize', 'usize')
+        return acc, st
     if dpath in ('core::iter::Iterator::max', 'core::iter::Iterator::min'):
         items, st = iter_items(ex, ctx, st, args[0])
         if not items:
